@@ -50,6 +50,8 @@ type Step struct {
 	Vol     int    `json:"vol,omitempty"` // controller index: 0 = main volume, 1 = clone volume
 	Src     int    `json:"src,omitempty"`
 	Ms      int    `json:"ms,omitempty"`
+	IfRW    bool   `json:"if_rw,omitempty"`    // compare_clone: only when the controller lists the clone RW
+	Opt     bool   `json:"optional,omitempty"` // wait_rw: a timeout is not a failure
 }
 
 type Case struct {
@@ -179,7 +181,8 @@ type world struct {
 		done chan struct{}
 		n    int64
 	}
-	rf int
+	rf      int
+	blocked []net.Listener
 }
 
 func repIP(r int) string { return fmt.Sprintf("127.0.1.%d", r+1) }
@@ -366,6 +369,44 @@ func (w *world) step(s Step) StepOut {
 		}
 	case "wait_rw":
 		o.Ok, o.Note = w.waitRW(s.Vol, s.N, s.Timeout)
+		if s.Opt {
+			o.Ok = true
+		}
+	case "block_ports":
+		// occupy the ports on which a sync agent starts its ssync receivers for snapshot data files: the
+		// receiver cannot start and the sender fails, which is what a transfer dying mid-copy looks like to
+		// the rebuild task (the small .meta transfers use the even ports and work)
+		for p := 9701; p < 9760; p += 2 {
+			if l, err := net.Listen("tcp", fmt.Sprintf(":%d", p)); err == nil {
+				w.blocked = append(w.blocked, l)
+				go func(l net.Listener) {
+					for {
+						c, err := l.Accept()
+						if err != nil {
+							return
+						}
+						c.Close()
+					}
+				}(l)
+			}
+		}
+	case "unblock_ports":
+		for _, l := range w.blocked {
+			l.Close()
+		}
+		w.blocked = nil
+	case "stop":
+		if p := w.procs[s.R]; p != nil {
+			p.mu.Lock()
+			syscall.Kill(-p.cmd.Process.Pid, syscall.SIGSTOP)
+			p.mu.Unlock()
+		}
+	case "cont":
+		if p := w.procs[s.R]; p != nil {
+			p.mu.Lock()
+			syscall.Kill(-p.cmd.Process.Pid, syscall.SIGCONT)
+			p.mu.Unlock()
+		}
 	case "write":
 		// s.Count sequential writes with fresh values over pseudo-random blocks
 		v := w.vols[s.Vol]
@@ -563,6 +604,18 @@ func (w *world) step(s Step) StepOut {
 	case "compare_clone":
 		// the live image of clone replica s.R equals the image of snapshot s.Name on source replica s.Src,
 		// and its revision counter equals the one recorded for that snapshot
+		if s.IfRW {
+			served := false
+			for _, r := range w.vols[s.Vol].c.ListReplicas() {
+				if r.Address == "tcp://"+repIP(s.R)+":9502" && r.Mode == types.RW {
+					served = true
+				}
+			}
+			if !served {
+				o.Note = "clone is not served (not RW at the controller): nothing to compare"
+				break
+			}
+		}
 		img, vals, err := w.image(s.R)
 		if err != nil {
 			o.Ok, o.Note = false, err.Error()
@@ -619,6 +672,11 @@ func runCase(c Case, work, bin string) Out {
 	os.MkdirAll(w.work, 0700)
 	defer os.RemoveAll(w.work)
 	defer w.killAll()
+	defer func() {
+		for _, l := range w.blocked {
+			l.Close()
+		}
+	}()
 	for i, ip := range []string{"127.0.0.1", "127.0.0.2"} {
 		v, err := newVolume(ip, c.RF, fmt.Sprintf("vol%d", i))
 		if err != nil {
